@@ -1439,8 +1439,17 @@ def report_suite(run, scratch, seed, n, name="reports"):
                 got = sr.get("r.%d h_positions" % tid) or ["0x0.0p+0"] * len(toks)     # never traded: not in the replay tree
                 if any(common.close(a, b) < 0 for a, b in zip(toks, got)):
                     msg = "positions of n%03d are not reproduced" % tid
-        if msg is None and any(common.close(a, b) < 0 for a, b in zip(so["r hg_values"], sr["r hg_values"])):
-            k = [common.close(a, b) < 0 for a, b in zip(so["r hg_values"], sr["r hg_values"])].index(True)
+        # values: relative 1e-9, and absolutely 1e-9 x the size of the book (a book wound down to float dust is not
+        # compared digit by digit)
+        vscale = 1e-9 * max([1.0] + [abs(common.tok_val(t)) for t in so["r hg_values"] if isinstance(common.tok_val(t), float)])
+
+        def vdiff(a, b):
+            va, vb = common.tok_val(a), common.tok_val(b)
+            if isinstance(va, float) and isinstance(vb, float) and abs(va - vb) <= vscale:
+                return False
+            return common.close(a, b) < 0
+        if msg is None and any(vdiff(a, b) for a, b in zip(so["r hg_values"], sr["r hg_values"])):
+            k = [vdiff(a, b) for a, b in zip(so["r hg_values"], sr["r hg_values"])].index(True)
             msg = "values are not reproduced (row %d: %s vs %s)" % (k, common.tok_val(so["r hg_values"][k]), common.tok_val(sr["r hg_values"][k]))
         if msg and msg.startswith("values"):
             # K17: a same-day round trip in one security (net trade zero) costs spread / fees but is invisible to a
@@ -1468,6 +1477,22 @@ def report_suite(run, scratch, seed, n, name="reports"):
                         if day is not None and day != alld[0]:
                             booked[(day, row[1])] = booked.get((day, row[1]), 0) + 1
             if any(v_ > 1 for v_ in booked.values()):
+                run.known_seen.add("c18_K18_same_day_trades_merged")
+                rt_ok += 1
+                continue
+        if msg and msg.startswith("values") and c.get("bidoffer"):
+            # K18, second form: same-named securities in different sub-strategies traded in opposite directions on one
+            # date; the list nets them per ticker, so the replay pays the spread on the net quantity only
+            moves = {}
+            for key, toks in so.items():
+                if key.endswith(" h_positions") and "~" not in key:
+                    tid = key.split(" ")[0].split(".")[-1]
+                    pos = [common.tok_val(t) for t in toks]
+                    for k in range(len(pos)):
+                        d_ = pos[k] - (pos[k - 1] if k else 0.0)
+                        if d_ != 0:
+                            moves.setdefault((tid, k), []).append(d_)
+            if any(min(v_) < 0 < max(v_) for v_ in moves.values()):
                 run.known_seen.add("c18_K18_same_day_trades_merged")
                 rt_ok += 1
                 continue
